@@ -38,13 +38,13 @@ UseAll(st, uses, i, known) ==
           ELSE IF u.m = "raw" THEN
               (IF kind \in OwnedKinds THEN
                    LET s == [st EXCEPT !.rawc = (n :> CountOf(st.rawc, n) + 1) @@ st.rawc]
-                   IN  IF CountOf(st.rawc, n) >= 1 THEN Flag(s, "second un-DUP'ed use of " \o n) ELSE s
+                   IN  IF CountOf(st.rawc, n) >= 1 THEN Flag(s, "own: second un-DUP'ed use of " \o n) ELSE s
                ELSE IF kind = "hexop_val" THEN Flag(st, "HexOp value " \o n \o " used without &")
                ELSE st)
           ELSE IF u.m = "dup" THEN
               (IF kind \in {"pure", "bool", "param_pure"}
                THEN [st EXCEPT !.dupc = (n :> CountOf(st.dupc, n) + 1) @@ st.dupc]
-               ELSE Flag(st, "DUP of " \o n \o " which is " \o kind))
+               ELSE Flag(st, "own: DUP of " \o n \o " which is " \o kind))
           ELSE IF u.m = "addr" THEN
               (IF kind = "hexop_val" THEN st ELSE Flag(st, "& applied to " \o n \o " which is " \o kind))
           ELSE st
@@ -72,7 +72,7 @@ Step(st, ev, known, allowed) ==
             s3 == CalleesOk(s2, ev.callees, allowed)
             unused == {n \in DOMAIN s3.kinds : s3.kinds[n] \in ILKinds /\ CountOf(s3.rawc, n) = 0}
             s4 == IF unused = {} THEN s3
-                  ELSE Flag(s3, "initialised but never consumed: " \o (CHOOSE n \in unused : TRUE))
+                  ELSE Flag(s3, "own: initialised but never consumed: " \o (CHOOSE n \in unused : TRUE))
         IN  [s4 EXCEPT !.done = TRUE]
     ELSE Flag(st, "unknown event")
 
